@@ -8,11 +8,11 @@
 #include <vector>
 
 extern "C" {
-struct cm_tokvec { size_t size; uint64_t data[12]; };
+struct cm_tokvec { size_t size; uint64_t data[20]; };
 extern struct cm_tokvec groupname, keygroups;
 extern size_t g_nhdr, g_indent;
-extern size_t g_hdr_depth[12];
-extern uint64_t g_hdr_tok[12];
+extern size_t g_hdr_depth[20];
+extern uint64_t g_hdr_tok[20];
 void YD_print_groups(void);
 }
 
@@ -106,7 +106,8 @@ static int replay(const char *path) {
     for (int pass = 0; pass < 2 && !bad; ++pass) {
       name.clear(); g.clear(); k.clear();
       int next = 0;
-      for (size_t j = 0; j < 5; ++j) {
+      for (size_t j = 0; j < 8; ++j) {
+        if (!in.has("in_g" + std::to_string(j)) || !in.has("in_k" + std::to_string(j))) break;
         const uint64_t tg = in.u64("in_g" + std::to_string(j)), tk = in.u64("in_k" + std::to_string(j));
         const uint64_t a = pass ? tk : tg, b = pass ? tg : tk;
         if (!name.count(a)) name[a] = "n" + std::to_string(next++);
